@@ -48,6 +48,15 @@ func root() string {
 	return "/verif"
 }
 
+// outRoot: where evidence/ and replays/ are written (VERIF_OUT redirects them when the checks
+// are run against a scratch copy of the repository, e.g. to evaluate a seeded mutant).
+func outRoot() string {
+	if r := os.Getenv("VERIF_OUT"); r != "" {
+		return r
+	}
+	return root()
+}
+
 func buildDir() string {
 	if r := os.Getenv("VERIF_BUILD"); r != "" {
 		return r
@@ -382,8 +391,8 @@ func coordinate(id, tier string) int {
 	}
 
 	known := loadKnown()
-	os.MkdirAll(filepath.Join(root(), "replays"), 0o755)
-	if old, _ := filepath.Glob(filepath.Join(root(), "replays", id+"-*.json")); true {
+	os.MkdirAll(filepath.Join(outRoot(), "replays"), 0o755)
+	if old, _ := filepath.Glob(filepath.Join(outRoot(), "replays", id+"-*.json")); true {
 		for _, f := range old {
 			os.Remove(f) // artefacts of earlier runs of this property are stale
 		}
@@ -398,7 +407,7 @@ func coordinate(id, tier string) int {
 			knownLines = append(knownLines, fmt.Sprintf("KNOWN-FINDING: property=%s %s [%s] (%d cases)", id, k.Description, sig, v.Count))
 			continue
 		}
-		path := filepath.Join(root(), "replays", fmt.Sprintf("%s-%016x.json", id, Hash64(sig)))
+		path := filepath.Join(outRoot(), "replays", fmt.Sprintf("%s-%016x.json", id, Hash64(sig)))
 		v.Path = path
 		writeJSON(path, v)
 		// reproduce 5/5 through the replay path before believing it
@@ -485,8 +494,8 @@ func coordinate(id, tier string) int {
 	ev := evidence{PropertyID: id, Tier: tier, Seed: seed, Level: "model_checking", Coverage: cov,
 		Assumptions: append([]string{"VERIF_SEED is recorded but unused: nothing is drawn at random"}, p.Assumptions...),
 		WallS:       time.Since(start).Seconds(), Violations: nviol}
-	os.MkdirAll(filepath.Join(root(), "evidence"), 0o755)
-	if err := writeJSON(filepath.Join(root(), "evidence", id+".json"), ev); err != nil {
+	os.MkdirAll(filepath.Join(outRoot(), "evidence"), 0o755)
+	if err := writeJSON(filepath.Join(outRoot(), "evidence", id+".json"), ev); err != nil {
 		fmt.Fprintln(os.Stderr, err)
 		return 2
 	}
